@@ -166,10 +166,14 @@ theorem restart_cycles (n : Nat) : ∀ (s : St), WF s →
 
 /-! ## shutdown requested at any point (micro-steps)
 
-`{}` = the tree without the two repairs (scans hold the exit lock, answers and publishers do not);
-`fixedTree` = with fixes/F17 (topic-exit barrier) and fixes/F18 (REQ/TOUCH hold the exit lock).
-Which of the two a given tree is, is decided by the ties `topic_exit_flag_shape` and
-`answers_exit_lock_shape`; every witness schedule below is replayed on the real code with the hooks. -/
+`{}` = the tree without any repair (scans hold the exit lock, answers and publishers do not);
+`fixedTree` = with F17 (topic-exit barrier) and F18 (REQ/TOUCH hold the exit lock);
+`joinedTree` = also F23 (Exit joins the handlers and their pumps) and F26 (GetTopic hands out a closed topic during Exit).
+All four are committed to /repo: the ties `topic_exit_flag_shape`, `answers_exit_lock_shape`, `exit_joins_pumps_shape`,
+`get_topic_exit_shape` demand exactly the committed shapes and `tree_model_known : treeModel = joinedTree`.
+`C05_full_tree` (= `C05_full_joined`) is the theorem for the current tree; `C05_full_false`, `C05_full_fixed_false`,
+`each_repair_needed` are theorems about the unrepaired shapes; every witness schedule is replayed on the real code with the
+hooks (a reproduction is a VIOLATION). -/
 
 /-- the full claim: whatever the interleaving of the shutdown with publishers, answers and consumer
 pumps, once everything has run to its end every acknowledged, un-FINished message is on a disk queue -/
@@ -312,6 +316,25 @@ theorem C05_full_joined (sched : List RaceStep) (s : RaceSt)
   · exact Or.inl (Or.inr h1)
   · exact Or.inr h1
 
+/-- **THE theorem for the current tree**: the race-model instance the regenerated facts select (`Tie.Restart.treeModel`,
+pinned to `joinedTree` by `tree_model_known` now that F17, F18, F23, F26 are committed) loses nothing, whatever the
+schedule — no hypothesis.  A tree that drops one of the four repairs changes `treeModel`, `tree_model_known` fails and this
+statement is no longer about it (its `_false` witness below is, and the hook replay of that window is a VIOLATION). -/
+theorem C05_full_tree (sched : List RaceStep) (s : RaceSt)
+    (h : raceRun Nsq.Tie.Restart.treeModel sched = some s) (hd : raceDone s = true) : allAckedOnDisk s = true := by
+  rw [Nsq.Tie.Restart.tree_model_known] at h
+  exact C05_full_joined sched s h hd
+
+/-- every one of the four repairs is needed: dropping exactly one from `joinedTree` re-opens its window (the `_false`
+witnesses of the unrepaired shapes, as theorems about those shapes) -/
+theorem each_repair_needed :
+    lostFrom { joinedTree with topicBarrier := false } witnessPublish = true ∧
+    lostFrom { joinedTree with ansLock := false } witnessReq = true ∧
+    lostFrom { joinedTree with ansLock := false } witnessReqDeferred = true ∧
+    lostFrom { joinedTree with ansLock := false } witnessTouch = true ∧
+    lostFrom { joinedTree with pumpJoin := false } witnessPump = true ∧
+    lostFrom { joinedTree with newTopicGuard := false } witnessNewTopic = true := by decide
+
 /-- on that tree the pump witness is not a schedule (the topics are not closed while a pump holds a message),
 after the shutdown has begun no pump takes anything, and the interleaving with the waiting made explicit loses
 nothing; F23 alone does not repair the other two windows -/
@@ -450,6 +473,10 @@ example : (raceRun fixedTree fixedDemo).map (fun s => (raceDone s, s.lateReg, s.
 example : (raceRun fixedTree witnessPump).map (fun s => (raceDone s, s.lateReg, allAckedOnDisk s)) = some (true, [1], false) := by decide
 example : (raceRun { topicBarrier := true } [.pubCheck 1, .pubSend 1, .pubCheck 2, .pubSend 2, .fanout, .exitFlag, .exitChan, .exitTopicFlush]).map
     (fun s => (s.topicClosed, s.acked, s.topicDisk, s.fanned)) = some (true, [2, 1], [2], [1]) := by decide
+
+/-- `C05_full_tree` is not vacuous: the complete shutdown `fixedDemo` is a schedule of the tree's own instance -/
+example : (raceRun Nsq.Tie.Restart.treeModel fixedDemo).map (fun s => (raceDone s, s.acked, allAckedOnDisk s)) =
+    some (true, [5, 4, 3, 2, 1], true) := by rw [Nsq.Tie.Restart.tree_model_known]; rfl
 
 /-- `C05_full_joined` is not vacuous: the same complete shutdown on the tree with F23 -/
 example : (raceRun joinedTree fixedDemo).map (fun s => (raceDone s, s.lateReg, s.acked, s.topicDisk, s.chanDisk, s.finished, allAckedOnDisk s)) =
